@@ -1,5 +1,7 @@
 import MLPE.Basic
 import MLPE.Store
 import MLPE.Eng
+import MLPE.Retry
+import MLPE.Sem
 import MLPE.Proofs.Store
 import MLPE.Props.C18
